@@ -47,9 +47,7 @@ def stencil_of(ex, store):
     for rid, coef in terms:
         ref = ex.refs[rid]
         if ref["table"] is not store.table:
-            # a reference to another table (initialisation from a previous stage): not a recursion term
-            const = const + coef * TabRef(sp.Integer(rid))
-            continue
+            raise AnalysisError(ex.rule, "a recursion step mixes references to two tables", store.func.where(store.node))
         off = offsets(store, ref)
         cf = resolve_aranges(ex, store, coef)
         cf = sp.simplify(cf.subs(subs))
@@ -80,6 +78,13 @@ def vanishes_on_domain(coef, tsyms, store):
 def compare(ex, store, spec_terms, findings, rule, what):
     """spec_terms: list of (offset tuple over the table axes, coefficient in the target-index values)."""
     terms, const, tsyms, subs = stencil_of(ex, store)
+    moving = [t for t in terms if any((not isinstance(o, tuple)) and not o.is_number for o in t["offset"])]
+    if moving:
+        k = [i for i, o in enumerate(moving[0]["offset"]) if (not isinstance(o, tuple)) and not o.is_number][0]
+        findings.append(Finding(rule, store, f"{what}: the reference `{ast.unparse(moving[0]['ref']['node'])[:70]}` does not move with the target index on axis {k} "
+                                             f"(offset {moving[0]['offset'][k]} depends on the loop variable)",
+                                expected="source index = target index + constant", found=str(moving[0]["offset"][k])))
+        return False
     bad = [t for t in terms if any(isinstance(o, tuple) for o in t["offset"])]
     if bad:
         o = [x for x in bad[0]["offset"] if isinstance(x, tuple)][0]
@@ -119,12 +124,15 @@ def compare(ex, store, spec_terms, findings, rule, what):
 
 
 def inc_axis(terms, naxes):
-    """The unique table axis on which every source lies strictly below the target."""
+    """The table axes on which every source lies strictly below the target (a source pinned to a constant index under a
+    moving target counts as below: its defect is reported by `compare`)."""
     cands = []
     for k in range(naxes):
         offs = [t["offset"][k] for t in terms]
-        if offs and all((not isinstance(o, tuple)) and o.is_number and o <= -1 for o in offs):
-            cands.append(k)
+        if offs and all((not isinstance(o, tuple)) and ((o.is_number and o <= -1) or (not o.is_number and (o + 1).is_nonpositive is not False and
+                                                                                     sp.simplify(o).is_negative is not False)) for o in offs):
+            if any(o.is_number for o in offs):
+                cands.append(k)
     return cands
 
 
@@ -328,3 +336,152 @@ def superlinear_cancellation(expr):
         return None
 
     return walk(expr)
+
+
+# ====================================================================================================== one-electron (V0, Vv, Vh)
+def shell_syms(s):
+    cen = {1: A, 2: B, 3: C, 4: D}[s]
+    ex_ = {1: al, 2: be, 3: ga, 4: de}[s]
+    return cen, ex_
+
+
+def check_one_elec(ex, findings):
+    """ex: extractor that ran `_compute_one_elec_integrals`.  Returns info (first-shell index X in {1, 2}, tables, ...)."""
+    f = ex.func
+    if len(ex.all_tables) != 2:
+        raise AnalysisError("STENCIL", f"expected a vertical and a horizontal recursion table in {f.name}, found {len(ex.all_tables)}", f.where())
+    vert, horiz = ex.all_tables
+    p = al + be
+    mu = al * be / p
+    Pc = lambda k: (al * A(k) + be * B(k)) / p
+    info = dict(vert=vert, horiz=horiz, stores=[], X=None)
+    X = None
+    nv = len(vert.labels)
+    for s in ex.stores:
+        try:
+            terms, const, tsyms, subs = stencil_of(ex, s)
+        except LabelMismatch as lm:
+            findings.append(Finding("V-ALIGN", s, lm.msg))
+            continue
+        vals, lows, consts = tvalues(tsyms)
+        if s.table is vert:
+            if not terms:
+                # V0 at a = (0,0,0) for every m
+                RPC2 = sum((Pc(k) - Cp(k)) ** 2 for k in range(3))
+                RAB2 = sum((A(k) - B(k)) ** 2 for k in range(3))
+                want = (2 * sp.pi / p) * Boys(vals[0], p * RPC2) * sp.exp(-mu * RAB2)
+                okc = all(consts[k] and vals[k] == 0 for k in (1, 2, 3)) and not consts[0]
+                ok = okc and sp.simplify(const - want) == 0
+                if not ok:
+                    # distinguish Boys argument / order from the prefactor
+                    findings.append(Finding("V0", s, "the start of the vertical recursion is not (2 pi/p) F_m(p |P-C|^2) exp(-mu |A-B|^2) for every order m "
+                                                     "(F_m the Boys function, C the point charge)", expected=str(want), found=str(const)[:300]))
+                info["stores"].append((s, "V0"))
+                continue
+            ks = [k for k in inc_axis(terms, nv) if k in (1, 2, 3)]
+            if len(ks) != 1:
+                raise AnalysisError("STENCIL", f"cannot tell which index `{s.text}` increments: not an Obara-Saika vertical step", f.where(s.node))
+            r = ks[0]
+            cc = r - 1
+            lead = [t for t in terms if t["offset"][r] == -1 and t["offset"][0] == 0]
+            if len(lead) != 1:
+                raise AnalysisError("STENCIL", f"`{s.text}` has no single leading term", f.where(s.node))
+            lc = lead[0]["coef"]
+            cand = [k for k, cen in ((1, A), (2, B)) if sp.simplify(lc - (Pc(cc) - cen(cc))) == 0]
+            if not cand:
+                findings.append(Finding("Vv", s, f"the leading coefficient {lc} of the step along component {cc} is not (P - centre of the shell being built)_{cc}",
+                                        expected=f"P({cc}) - A({cc})  or  P({cc}) - B({cc})", found=str(lc)))
+                continue
+            if X is not None and cand[0] != X:
+                findings.append(Finding("Vv", s, f"this step builds up shell {cand[0]} while the other vertical steps build up shell {X}", found=str(lc)))
+                continue
+            X = cand[0]
+            e_r = [0] * nv
+            e_r[r] = -1
+            e_rm = list(e_r)
+            e_rm[0] = 1
+            e_2 = [0] * nv
+            e_2[r] = -2
+            e_2m = list(e_2)
+            e_2m[0] = 1
+            cenX = A if X == 1 else B
+            spec = [(tuple(e_r), Pc(cc) - cenX(cc)), (tuple(e_rm), -(Pc(cc) - Cp(cc))),
+                    (tuple(e_2), (vals[r] - 1) / (2 * p)), (tuple(e_2m), -(vals[r] - 1) / (2 * p))]
+            compare(ex, s, spec, findings, "Vv", f"vertical step along component {cc}")
+            info["stores"].append((s, "Vv"))
+        elif s.table is horiz:
+            nh = len(horiz.labels)
+            if not terms:
+                info["init"] = s
+                info["stores"].append((s, "Vc"))
+                continue
+            ks = [k for k in inc_axis(terms, nh) if k in (0, 1, 2)]
+            if len(ks) != 1:
+                raise AnalysisError("STENCIL", f"cannot tell which index `{s.text}` increments: not a horizontal transfer step", f.where(s.node))
+            r = ks[0]
+            up = [0] * nh
+            up[r], up[r + 3] = -1, +1
+            same = [0] * nh
+            same[r] = -1
+            if X is None:
+                raise AnalysisError("STENCIL", "horizontal step before any vertical step", f.where(s.node))
+            cenX, cenY = (A, B) if X == 1 else (B, A)
+            compare(ex, s, [(tuple(up), sp.Integer(1)), (tuple(same), cenX(r) - cenY(r))], findings, "Vh", f"horizontal transfer along component {r}")
+            info["stores"].append((s, "Vh"))
+    info["X"] = X
+    if X is None:
+        return info
+    # contraction between the two tables: T_h[0,0,0] = sum_K norm coef T_v[m=0]
+    init = info.get("init")
+    if init is None:
+        findings.append(Finding("Vc", None, "the horizontal table is never initialised from the contracted vertical table", construct="horizontal table init"))
+        return info
+    Y = 2 if X == 1 else 1
+    lX, lY = sp.Symbol(f"l{X}", integer=True, nonnegative=True), sp.Symbol(f"l{Y}", integer=True, nonnegative=True)
+    eX, eY = shell_syms(X)[1], shell_syms(Y)[1]
+    NX = (2 * eX / sp.pi) ** sp.Rational(3, 4) * (4 * eX) ** (lX / 2)
+    NY = (2 * eY / sp.pi) ** sp.Rational(3, 4) * (4 * eY) ** (lY / 2)
+    rhs = init.rhs.e
+    layers = []
+    cur = rhs
+    from .stencil import Contract
+    while isinstance(cur, Contract):
+        inner, marker = cur.args
+        args_ = list(sp.Mul.make_args(inner))
+        subc = [a for a in args_ if isinstance(a, Contract)]
+        rest = sp.Mul(*[a for a in args_ if not isinstance(a, Contract)])
+        layers.append((str(marker), rest))
+        cur = subc[0] if subc else None
+        if cur is None:
+            break
+    ok = len(layers) == 2
+    msg = ""
+    if ok:
+        (m_out, f_out), (m_in, f_in) = layers
+        refs = list(f_in.atoms(TabRef))
+        ok = len(refs) == 1
+        if ok:
+            ref = ex.refs[int(refs[0].args[0])]
+            idx = ref["index"]
+            okref = ref["table"] is vert and idx[0].kind == "const" and idx[0].value == 0 and all(i.kind == "full" for i in idx[1:])
+            if not okref:
+                ok = False
+                msg = "the contracted quantity is not the whole vertical table at Boys order m = 0"
+            fin = sp.simplify(f_in / refs[0])
+            fout = f_out
+            want_in = {f"over_dim_K_{X}": NX * sp.Symbol(f"coef{X}"), f"over_dim_K_{Y}": NY * sp.Symbol(f"coef{Y}")}
+            for marker, fac in ((m_in, fin), (m_out, fout)):
+                if marker not in want_in:
+                    ok = False
+                    msg = f"contraction over {marker}, expected the primitive axes of the two shells"
+                elif sp.simplify(fac / want_in[marker] - 1) != 0:
+                    ok = False
+                    msg = (f"the factor contracted over {marker} is {fac}; expected that shell's coefficients times its exponent-dependent "
+                           f"normalisation {want_in[marker]}")
+            if m_in == m_out:
+                ok = False
+                msg = "the same primitive axis is contracted twice"
+    if not ok:
+        findings.append(Finding("Vc", init, "between the vertical and the horizontal recursion the primitives of each shell must be contracted once with that shell's "
+                                            "coefficients and (2a/pi)^(3/4) (4a)^(l/2): " + msg, found=str(rhs)[:200]))
+    return info
